@@ -53,3 +53,21 @@ def lockowner(run, P):
 def teardown(run, P):
     from rules import r_session
     r_session.run_teardown(run, P)
+def cmpbound(run, P):
+    from rules import r_cmpbound
+    r_cmpbound.run(run, P)
+def countcap(run, P):
+    from rules import r_countcap
+    r_countcap.run(run, P)
+def shallow(run, P):
+    from rules import r_shallow
+    r_shallow.run(run, P)
+def psk(run, P):
+    from rules import r_route
+    r_route.run_psk(run, P)
+def suppress(run, P):
+    from rules import r_suppress
+    r_suppress.run(run, P)
+def oscrole(run, P):
+    from rules import r_oscrole
+    r_oscrole.run(run, P)
